@@ -630,6 +630,11 @@ func flowStage(o *c.Out, repo string) {
 	} else {
 		o.Case("apisurface", "extract-failed")
 	}
+	if impl, err := ctxMethods(repo); err == nil {
+		o.Case("ctxmethods", "ctxmethods:"+impl)
+	} else {
+		o.Case("ctxmethods", "extract-failed")
+	}
 	if impl, err := apiRoutes(repo); err == nil {
 		o.Case("routes", "routes:"+impl)
 	} else {
@@ -755,6 +760,44 @@ func apiRoutes(repo string) (string, error) {
 	}
 	if len(out) == 0 {
 		return "", fmt.Errorf("api.Route not found")
+	}
+	return strings.Join(out, ";"), nil
+}
+
+// `ctxmethods`: for each token handler, the provisioner.Method constants it puts into the request
+// context (provisioner.NewContextWithMethod), in source order: "<handler>:<Method>,<Method>;…"
+func ctxMethods(repo string) (string, error) {
+	var out []string
+	for _, h := range handlerFiles {
+		fset := token.NewFileSet()
+		f, err := parser.ParseFile(fset, filepath.Join(repo, h.file), nil, 0)
+		if err != nil {
+			return "", err
+		}
+		var ms []string
+		for _, d := range f.Decls {
+			fd, ok := d.(*ast.FuncDecl)
+			if !ok || fd.Recv != nil || fd.Name.Name != h.fn || fd.Body == nil {
+				continue
+			}
+			ast.Inspect(fd.Body, func(x ast.Node) bool {
+				ce, ok := x.(*ast.CallExpr)
+				if !ok {
+					return true
+				}
+				sel, ok := ce.Fun.(*ast.SelectorExpr)
+				if !ok || sel.Sel.Name != "NewContextWithMethod" || len(ce.Args) != 2 {
+					return true
+				}
+				if m, ok := ce.Args[1].(*ast.SelectorExpr); ok {
+					ms = append(ms, m.Sel.Name)
+				} else {
+					ms = append(ms, "X:computed-method")
+				}
+				return true
+			})
+		}
+		out = append(out, h.fn+":"+strings.Join(ms, ","))
 	}
 	return strings.Join(out, ";"), nil
 }
